@@ -45,6 +45,34 @@ func ruleEnsure(c *Ctx) {
 					if _, isLoad := r.(*ssa.UnOp); isLoad && fn != addH {
 						bad = "the option is also read in " + fname(fn) + " at " + b.posOf(r)
 					}
+					// in the handler the option decides one thing: whether the walk runs
+					if ld, isLoad := r.(*ssa.UnOp); isLoad && fn == addH && ld.Referrers() != nil {
+						for _, u := range *ld.Referrers() {
+							neg := false
+							if nt, isNot := u.(*ssa.UnOp); isNot && nt.Op == token.NOT && nt.Referrers() != nil && len(*nt.Referrers()) == 1 {
+								u, neg = (*nt.Referrers())[0], true
+							}
+							switch x := u.(type) {
+							case *ssa.DebugRef:
+							case *ssa.If:
+								on := 0
+								if neg {
+									on = 1
+								}
+								guards := false
+								for _, cs := range callsTo(addH, func(cc *ssa.CallCommon) bool { return cc.StaticCallee() == ep }) {
+									if x.Block().Succs[on] == cs.Block() || edgeDominates(x.Block(), on, cs.Block()) {
+										guards = true
+									}
+								}
+								if !guards {
+									bad = "the option read at " + b.posOf(ld) + " decides a branch that does not lead to ensurePathExists: with the option set an add does something else than an add after the parents were created"
+								}
+							default:
+								bad = "the option read at " + b.posOf(ld) + " is used for something other than deciding whether ensurePathExists runs (" + b.posOf(u) + ")"
+							}
+						}
+					}
 					if st, isSt := r.(*ssa.Store); isSt {
 						if k, ok := boolConst(st.Val); !ok || k {
 							bad = "library code switches the option on at " + b.posOf(st)
